@@ -84,23 +84,24 @@ Definition row_is (s : astore) (e : N) (st : dstate) : Prop :=
   | _, _ => False
   end.
 
-Theorem advance_fup_agrees s e st a nf kw : row_is s e st ->
-  row_is (fst (a_step s (AdvanceFCntUp e a nf kw))) e (fst (l_advance_fup st a nf kw)).
+Theorem advance_fup_agrees s e st key a nf kw : row_is s e st ->
+  row_is (fst (a_step s (AdvanceFCntUp e key a nf kw))) e (fst (l_advance_fup st key a nf kw)).
 Proof.
   unfold row_is. rewrite advance_is_compare_and_store. unfold l_advance_fup.
   destruct (dev_at s e) as [d|], (ds_row st) as [r|] eqn:Er; cbn [option_map]; try contradiction; [|cbn; rewrite Er; auto].
-  intros H. pose proof H as (H1 & H2 & H3 & H4 & H5 & H6 & H7 & H8 & H9 & H10 & H11). rewrite H8.
-  destruct (d_fup r <=? a); cbn [fst ds_row with_row]; [|rewrite Er; exact H].
+  intros H. pose proof H as (H1 & H2 & H3 & H4 & H5 & H6 & H7 & H8 & H9 & H10 & H11). rewrite H8, H5.
+  destruct ((d_fup r <=? a) && bytes_eqb (d_nwkskey r) key); cbn [fst ds_row with_row]; [|rewrite Er; exact H].
   unfold row_rel, upd_dev_state. cbn. tauto.
 Qed.
-Theorem next_fdn_agrees s e st : row_is s e st ->
-  row_is (fst (a_step s (NextFCntDn e))) e (fst (l_next_fdn st)) /\
-  snd (a_step s (NextFCntDn e)) = match snd (l_next_fdn st) with Some c => RCnt c | None => RNotFound end.
+Theorem next_fdn_agrees s e st key : NoDup (map rd_eui (a_devs s)) -> row_is s e st ->
+  row_is (fst (a_step s (NextFCntDn e key))) e (fst (l_next_fdn st key)) /\
+  snd (a_step s (NextFCntDn e key)) = match snd (l_next_fdn st key) with Some c => RCnt c | None => RNotFound end.
 Proof.
-  unfold row_is. destruct (next_is_fetch_and_increment s e) as [R1 R2]. rewrite R1, R2. unfold l_next_fdn.
+  intros Hn. unfold row_is. destruct (next_is_fetch_and_increment s e key Hn) as [R1 R2]. rewrite R1, R2. unfold l_next_fdn.
   destruct (dev_at s e) as [d|], (ds_row st) as [r|] eqn:Er; cbn [option_map fst snd]; try contradiction; [|rewrite Er; auto].
-  intros H. pose proof H as (H1 & H2 & H3 & H4 & H5 & H6 & H7 & H8 & H9 & H10 & H11). split; [|now rewrite H9].
-  cbn [ds_row with_row]. unfold row_rel, upd_dev_state. cbn. rewrite H9. tauto.
+  intros H. pose proof H as (H1 & H2 & H3 & H4 & H5 & H6 & H7 & H8 & H9 & H10 & H11). rewrite H5.
+  destruct (bytes_eqb (d_nwkskey r) key); cbn [negb fst snd ds_row with_row]; [|rewrite Er; split; [exact H | reflexivity]].
+  split; [|now rewrite H9]. unfold row_rel, upd_dev_state. cbn. rewrite H9. tauto.
 Qed.
 Theorem update_device_state_agrees s e st dev : row_is s e st ->
   row_is (fst (a_step s (UpdateDeviceState e (d_fup dev) (d_fdn dev) (d_keywarn dev)))) e (fst (l_update_device_state st dev)).
